@@ -523,7 +523,7 @@ func (ex *Exec) valueEq(st *State, a, b Value) *Term {
 	case *Term:
 		return Eq(x, b.(*Term))
 	case *FloatV:
-		return Bool(x.F == b.(*FloatV).F)
+		return fmap2(x, b.(*FloatV), func(p, q float64) Value { return Bool(p == q) }).(*Term)
 	case *KeyStr:
 		y := b.(*KeyStr)
 		if x.Len.IsConst() && y.Len.IsConst() && x.Len != y.Len {
